@@ -107,7 +107,10 @@ var _ rpc.Resources
 //@       rr.state == gcStateNone && sentDiff == ite(s.state == stateSent, 1, 0) && sent == (s.state == stateSent) && card(refs) == 1
 //@   assert[C02] s.traverse#2: arg0 == gcStateDelete && !(rr.indirect > 0 && !(sent && rr.indirectsent == 0))
 //@   assert[C02] return#2: rr.indirect > 0 && !(sent && rr.indirectsent == 0)
-//@   assert[C02] ref.sub.Dispose#1: ref.state == gcStateDelete
+// (every disposal comes before the first reset to not-sent: a disposed parent gives back the
+// sent-parent counts of its references, and the reset then leaves them at zero - in the other
+// order the count of a resource reset first would go below zero)
+//@   assert[C02] ref.sub.Dispose#1: ref.state == gcStateDelete && callcount("Unsend") == old(callcount("Unsend"))
 //@   assert[C02] ref.sub.Unsend#1: ref.state == gcStateUnsend
 //@   ensures[C08] forall x *Subscription :: x.direct == old(x.direct)
 //@   assigns Subscription.direct, Subscription.indirect, Subscription.indirectsent, Subscription.state, Subscription.queueFlag, Subscription.readyCallbacks,
@@ -115,9 +118,13 @@ var _ rpc.Resources
 //@   safety[C15]
 //@   loop 1 let R = refs
 //@   loop 1 invariant forall x *Subscription :: x.direct == old(x.direct)
+//@   loop 1 invariant[C02] callcount("Unsend") == old(callcount("Unsend"))
 //@   loop 1 assume forall k string :: has(R, k) ==> R[k] != nil && R[k].sub != nil && R[k].sub.c == c
 //@   loop 1 assume predConnOK(c) && predRefsOK() && (forall x *Subscription :: x.resourceSub != nil ==> x.resourceSub.e != nil && x.resourceSub.e.cache != nil) &&
 //@       (forall x *Subscription :: x.state == stateDisposed ==> x.resourceSub == nil)
+//@   loop 2 let R2 = refs
+//@   loop 2 invariant forall x *Subscription :: x.direct == old(x.direct)
+//@   loop 2 assume forall k string :: has(R2, k) ==> R2[k] != nil && R2[k].sub != nil && R2[k].sub.c == c
 
 // First pass, visit rule: the root is passed through; a resource seen before loses one parent
 // (and one sent parent if the root was sent) and is not descended into again; a resource seen
@@ -1468,8 +1475,9 @@ var _ rpc.Resources
 //@ func (*Subscription).validateAccess
 //@   requires s != nil && s.c != nil && predConnOK(s.c.(*wsConn)) && a != nil && (a.Error != nil || a.AccessResult != nil)
 //@   assumes predCountsOK()
-//@   ensures[C06] !old(a.Error == nil && a.Get) && old(s.direct) > 0 && !old(s.c.(*wsConn).disposing) ==> s.direct == 0
-//@   ensures[C06] !old(a.Error == nil && a.Get) && old(s.direct) > 0 && old(s.c.(*wsConn).ws) != nil ==> wsframes == old(wsframes) + 1
+// (anything but a get grant - a denial, an error, a timeout - ends the direct subscriptions)
+//@   ensures[C04,C06] !old(a.Error == nil && a.Get) && old(s.direct) > 0 && !old(s.c.(*wsConn).disposing) ==> s.direct == 0
+//@   ensures[C04,C06] !old(a.Error == nil && a.Get) && old(s.direct) > 0 && old(s.c.(*wsConn).ws) != nil ==> wsframes == old(wsframes) + 1
 //@   ensures[C06] old(a.Error == nil && a.Get) ==> wsframes == old(wsframes) && (forall x *Subscription :: x.direct == old(x.direct))
 //@   ensures[C06] old(s.direct) <= 0 ==> wsframes == old(wsframes) && (forall x *Subscription :: x.direct == old(x.direct))
 //@   assigns wsframes, s.confirmed, Subscription.direct, Subscription.state, Subscription.indirectsent, Subscription.indirect, Subscription.queueFlag, Subscription.readyCallbacks,
